@@ -486,4 +486,131 @@ theorem crcBitwise_window_ne {w} (P : BitVec w) (hP : P.msb = true) (A W W' C : 
   · simpa [length_bitsLsb] using hw
   · intro h; exact hne (bitsLsb_inj W W' hlen h)
 
+
+/-! ### bzip2's MSB-first table routine = bitwise definition -/
+
+theorem ZM_eq_stepBitM {w} (P s : BitVec w) : ZM P s = stepBitM P s false := by
+  simp [ZM, stepBitM]
+
+theorem ZMn_reverse {w} (P : BitVec w) (n : Nat) (s : BitVec w) : (ZMn P n s).reverse = Zn P.reverse n s.reverse := by
+  induction n generalizing s with
+  | zero => rfl
+  | succ n ih =>
+    simp only [ZMn, Zn]
+    rw [ih, ZM_eq_stepBitM, stepBitM_reverse, Z_eq_stepBit]
+
+theorem ZMn_xor {w} (P : BitVec w) (n : Nat) (a b : BitVec w) : ZMn P n (a ^^^ b) = ZMn P n a ^^^ ZMn P n b := by
+  apply reverse_inj
+  rw [reverse_xor, ZMn_reverse, ZMn_reverse, ZMn_reverse, reverse_xor, Zn_xor]
+
+theorem runBitsM_linear {w} (P : BitVec w) (X Y : List Bool) (h : X.length = Y.length) (s t : BitVec w) :
+    runBitsM P s X ^^^ runBitsM P t Y = runBitsM P (s ^^^ t) (List.zipWith (· ^^ ·) X Y) := by
+  apply reverse_inj
+  rw [reverse_xor, runBitsM_reverse, runBitsM_reverse, runBitsM_reverse, reverse_xor, runBits_linear _ _ _ h]
+
+theorem runBitsM_zeros {w} (P : BitVec w) (n : Nat) (s : BitVec w) :
+    runBitsM P s (List.replicate n false) = ZMn P n s := by
+  induction n generalizing s with
+  | zero => rfl
+  | succ n ih => simp only [List.replicate_succ, runBitsM, ZMn]; rw [ih, ZM_eq_stepBitM]
+
+theorem zipWith_false (Y : List Bool) : List.zipWith (· ^^ ·) (List.replicate Y.length false) Y = Y := by
+  induction Y with
+  | nil => rfl
+  | cons y Y ih => simp [List.replicate_succ, ih]
+
+/-- zero-input MSB-first steps on a state whose top `n` bits are clear are plain left shifts -/
+theorem ZMn_shift (P : BitVec 32) (n : Nat) (u : BitVec 32) (hn : n ≤ 32) (hu : u.toNat < 2 ^ (32 - n)) :
+    ZMn P n u = u <<< n := by
+  induction n generalizing u with
+  | zero => simp [ZMn]
+  | succ n ih =>
+    simp only [ZMn]
+    have hp : (2:Nat) ^ (32 - n) = 2 * 2 ^ (32 - (n + 1)) := by
+      rw [← Nat.pow_succ']; congr 1; omega
+    have hle : (2:Nat) ^ (32 - (n+1)) ≤ 2 ^ 31 := Nat.pow_le_pow_right (by decide) (by omega)
+    have hmsb : u.msb = false := by
+      rw [BitVec.msb_eq_decide]; simp; omega
+    have hZ : ZM P u = u <<< 1 := by simp [ZM, stepXM, hmsb]
+    rw [hZ, ih (u <<< 1) (by omega)]
+    · rw [Nat.add_comm n 1, BitVec.shiftLeft_add]
+    · rw [BitVec.toNat_shiftLeft, Nat.shiftLeft_eq]
+      have : u.toNat * 2 ^ 1 < 2 ^ 32 := by
+        have h32 : (2:Nat) ^ 31 * 2 = 2 ^ 32 := by decide
+        omega
+      rw [Nat.mod_eq_of_lt this]; omega
+
+def TableOkM (P : BitVec 32) (T : List (BitVec 32)) : Prop :=
+  ∀ i, i < 256 → T.getD i 0#32 = ZMn P 8 (BitVec.ofNat 32 i <<< 24)
+
+theorem tableBz_ok : TableOkM PBz tableBz := by unfold TableOkM; decide +kernel
+
+theorem tableBz_bits : ∀ i, i < 256 → runBitsM PBz 0#32 (byteBitsMsb (UInt8.ofNat i)) = tableBz.getD i 0#32 := by
+  decide +kernel
+
+theorem length_byteBitsMsb (b : UInt8) : (byteBitsMsb b).length = 8 := by
+  simp [byteBitsMsb, length_natBits]
+
+theorem shl_xor (x y : Nat) : BitVec.ofNat 32 (x ^^^ y) <<< 24 = BitVec.ofNat 32 x <<< 24 ^^^ BitVec.ofNat 32 y <<< 24 := by
+  apply BitVec.eq_of_getLsbD_eq
+  intro i hi
+  simp only [BitVec.getLsbD_xor, BitVec.getLsbD_shiftLeft, BitVec.getLsbD_ofNat, Nat.testBit_xor]
+  cases decide (i < 32) <;> cases decide (i < 24) <;> cases decide (i - 24 < 32) <;> simp
+
+theorem tableM_xor (P : BitVec 32) (T : List (BitVec 32)) (hT : TableOkM P T) (x y : Nat) (hx : x < 256) (hy : y < 256) :
+    T.getD (x ^^^ y) 0#32 = T.getD x 0#32 ^^^ T.getD y 0#32 := by
+  have hxy : x ^^^ y < 256 := @Nat.xor_lt_two_pow x y 8 hx hy
+  rw [hT _ hxy, hT _ hx, hT _ hy, ← ZMn_xor, shl_xor]
+
+theorem bzStep_eq_bits_gen (P : BitVec 32) (T : List (BitVec 32)) (hT : TableOkM P T)
+    (hbits : ∀ i, i < 256 → runBitsM P 0#32 (byteBitsMsb (UInt8.ofNat i)) = T.getD i 0#32)
+    (s : BitVec 32) (b : UInt8) :
+    bzStep T s b = runBitsM P s (byteBitsMsb b) := by
+  have hb : b.toNat < 256 := b.toNat_lt
+  have hlin := runBitsM_linear P (List.replicate (byteBitsMsb b).length false) (byteBitsMsb b) (by simp) s 0#32
+  rw [zipWith_false, BitVec.xor_zero, length_byteBitsMsb, runBitsM_zeros] at hlin
+  rw [← hlin]
+  have hbb : runBitsM P 0#32 (byteBitsMsb b) = T.getD b.toNat 0#32 := by
+    have := hbits b.toNat hb
+    rwa [UInt8.ofNat_toNat] at this
+  rw [hbb]
+  have hlt := s.isLt
+  have hidx : s.toNat / 2 ^ 24 < 256 := by omega
+  have e1 : BitVec.ofNat 32 (s.toNat % 2 ^ 24) <<< 8 = s <<< 8 := by
+    apply BitVec.eq_of_toNat_eq
+    simp only [BitVec.toNat_shiftLeft, BitVec.toNat_ofNat, Nat.shiftLeft_eq]
+    omega
+  have e2 : (s >>> 24) <<< 24 = BitVec.ofNat 32 (s.toNat / 2 ^ 24) <<< 24 := by
+    apply BitVec.eq_of_toNat_eq
+    simp only [BitVec.toNat_shiftLeft, BitVec.toNat_ofNat, BitVec.toNat_ushiftRight, Nat.shiftLeft_eq, Nat.shiftRight_eq_div_pow]
+    omega
+  have hs : ZMn P 8 s = (s <<< 8) ^^^ T.getD (s.toNat / 2 ^ 24) 0#32 := by
+    have hsplit := split_lo_hi 24 s
+    conv => lhs; rw [hsplit]
+    rw [ZMn_xor, ZMn_shift P 8 _ (by decide) (by rw [BitVec.toNat_ofNat]; omega), e1, e2, ← hT _ hidx]
+  rw [hs]
+  unfold bzStep
+  rw [tableM_xor P T hT _ _ hidx hb]
+  ac_rfl
+
+theorem bzStep_eq_bits (s : BitVec 32) (b : UInt8) :
+    bzStep tableBz s b = runBitsM PBz s (byteBitsMsb b) :=
+  bzStep_eq_bits_gen PBz tableBz tableBz_ok tableBz_bits s b
+
+theorem bzBlockCrc_eq_bitwise (m : Bytes) : bzBlockCrc m = ~~~ crcBitwiseM PBz 0xFFFFFFFF#32 m := by
+  unfold bzBlockCrc crcBitwiseM
+  congr 1
+  generalize (0xFFFFFFFF#32) = s
+  induction m generalizing s with
+  | nil => rfl
+  | cons b m ih =>
+    simp only [List.foldl, bitsMsb]
+    rw [ih, bzStep_eq_bits]
+    clear ih
+    generalize byteBitsMsb b = X
+    induction X generalizing s with
+    | nil => rfl
+    | cons x X ih2 => simp only [List.cons_append, runBitsM]; rw [ih2]
+
+
 end Xmp.Crc
